@@ -228,6 +228,33 @@ def dataOf : List BodyEv → Bytes
   | .data b :: r => b ++ dataOf r
   | _ :: r => dataOf r
 
+/-- the data bytes the decoder takes into its buffer: all of them, except for a response whose
+HTTP status is not 200 (`DecCfg.skipsBody`), whose body is dropped unread -/
+def accepted (cfg : DecCfg) : List BodyEv → Bytes
+  | [] => []
+  | .data b :: r => cfg.accept b ++ accepted cfg r
+  | _ :: r => accepted cfg r
+
+theorem accept_keep {cfg : DecCfg} (h : cfg.skipsBody = false) (c : Bytes) : cfg.accept c = c := by
+  simp [DecCfg.accept, h]
+
+theorem accept_skip {cfg : DecCfg} (h : cfg.skipsBody = true) (c : Bytes) : cfg.accept c = [] := by
+  simp [DecCfg.accept, h]
+
+/-- requests, `Streaming::new_empty` and 200 responses: everything delivered is decoded -/
+theorem accepted_keep {cfg : DecCfg} (h : cfg.skipsBody = false) (evs : List BodyEv) :
+    accepted cfg evs = dataOf evs := by
+  induction evs with
+  | nil => rfl
+  | cons ev r ih => cases ev <;> simp [accepted, dataOf, ih, accept_keep h]
+
+/-- a non-200 response: nothing is -/
+theorem accepted_skip {cfg : DecCfg} (h : cfg.skipsBody = true) (evs : List BodyEv) :
+    accepted cfg evs = [] := by
+  induction evs with
+  | nil => rfl
+  | cons ev r ih => cases ev <;> simp [accepted, ih, accept_skip h]
+
 theorem specFrom_push (cd : Codec α) (cfg : DecCfg) (s : DecSt) (c X : Bytes) :
     specFrom cd cfg { s with buf := s.buf ++ c } X = specFrom cd cfg s (c ++ X) := by
   simp only [specFrom]
@@ -268,15 +295,15 @@ def PollGood (cd : Codec α) (cfg : DecCfg) (s : DecSt) (evs : List BodyEv)
   evs'.length ≤ evs.length ∧
   match o with
   | .msg m => PhaseOk cfg s' ∧
-      specFrom cd cfg s (dataOf evs) = consRes m (specFrom cd cfg s' (dataOf evs'))
+      specFrom cd cfg s (accepted cfg evs) = consRes m (specFrom cd cfg s' (accepted cfg evs'))
   | .pending => PhaseOk cfg s' ∧ evs'.length < evs.length ∧
-      specFrom cd cfg s (dataOf evs) = specFrom cd cfg s' (dataOf evs')
-  | .none => PhaseOk cfg s' ∧ specFrom cd cfg s (dataOf evs) = specFrom cd cfg s' (dataOf evs')
+      specFrom cd cfg s (accepted cfg evs) = specFrom cd cfg s' (accepted cfg evs')
+  | .none => PhaseOk cfg s' ∧ specFrom cd cfg s (accepted cfg evs) = specFrom cd cfg s' (accepted cfg evs')
   | .err _ => s'.ph = .failed none
 
 theorem finish_good (cd : Codec α) (cfg : DecCfg) (s0 s : DecSt) (evs0 evs : List BodyEv)
     (hp : PhaseOk cfg s) (hl : evs.length ≤ evs0.length)
-    (hx : specFrom cd cfg s0 (dataOf evs0) = specFrom cd cfg s (dataOf evs)) :
+    (hx : specFrom cd cfg s0 (accepted cfg evs0) = specFrom cd cfg s (accepted cfg evs)) :
     PollGood cd cfg s0 evs0 (Dec.finish (α := α) cfg s evs).1 (Dec.finish (α := α) cfg s evs).2.1
       (Dec.finish (α := α) cfg s evs).2.2 := by
   unfold Dec.finish
@@ -326,20 +353,20 @@ theorem pollNext_good (cd : Codec α) (cfg : DecCfg) (evs : List BodyEv) : ∀ (
       dsimp only
       cases ev with
       | pending =>
-        exact ⟨by simp, hok, by simp, by simpa [dataOf] using hx _⟩
+        exact ⟨by simp, hok, by simp, by simpa [accepted] using hx _⟩
       | data c =>
-        have hok' : PhaseOk cfg { s' with buf := s'.buf ++ c } := by
+        have hok' : PhaseOk cfg { s' with buf := s'.buf ++ cfg.accept c } := by
           simpa [PhaseOk] using hok
         have := ih _ hok'
-        rcases hr : Dec.pollNext cd cfg ⟨s'.buf ++ c, s'.ph, s'.trailers⟩ rest with ⟨s2, evs2, o⟩
+        rcases hr : Dec.pollNext cd cfg ⟨s'.buf ++ cfg.accept c, s'.ph, s'.trailers⟩ rest with ⟨s2, evs2, o⟩
         rw [hr] at this
         simp only [hr]
         obtain ⟨hl, hcase⟩ := this
         dsimp only at hl hcase ⊢
         refine ⟨by simp; omega, ?_⟩
-        have hx' : specFrom cd cfg s (dataOf (.data c :: rest))
-            = specFrom cd cfg { s' with buf := s'.buf ++ c } (dataOf rest) := by
-          rw [specFrom_push]; simpa [dataOf] using hx _
+        have hx' : specFrom cd cfg s (accepted cfg (.data c :: rest))
+            = specFrom cd cfg { s' with buf := s'.buf ++ cfg.accept c } (accepted cfg rest) := by
+          rw [specFrom_push]; simpa [accepted] using hx _
         cases o with
         | msg m => exact ⟨hcase.1, hx'.trans hcase.2⟩
         | pending => exact ⟨hcase.1, by simp; omega, hx'.trans hcase.2.2⟩
@@ -347,13 +374,13 @@ theorem pollNext_good (cd : Codec α) (cfg : DecCfg) (evs : List BodyEv) : ∀ (
         | err st => exact hcase
       | trailers t =>
         refine finish_good cd cfg s _ _ rest (by simpa [PhaseOk] using hok) (by simp) ?_
-        have : specFrom cd cfg ⟨s'.buf, s'.ph, mergeTr s'.trailers t⟩ (dataOf rest)
-            = specFrom cd cfg s' (dataOf rest) := by simp only [specFrom]
-        rw [this]; simpa [dataOf] using hx _
+        have : specFrom cd cfg ⟨s'.buf, s'.ph, mergeTr s'.trailers t⟩ (accepted cfg rest)
+            = specFrom cd cfg s' (accepted cfg rest) := by simp only [specFrom]
+        rw [this]; simpa [accepted] using hx _
       | err st =>
         by_cases hc : cfg.dir = .request ∧ st.code = 1
         · simp only [hc, and_self, ↓reduceIte]
-          exact finish_good cd cfg s s' _ rest hok (by simp) (by simpa [dataOf] using hx _)
+          exact finish_good cd cfg s s' _ rest hok (by simp) (by simpa [accepted] using hx _)
         · simp only [hc, ↓reduceIte]
           exact ⟨by simp, rfl⟩
 
@@ -388,9 +415,9 @@ def CleanPoll (cd : Codec α) (cfg : DecCfg) (s : DecSt) (evs : List BodyEv) (ms
     (s' : DecSt) (evs' : List BodyEv) (o : Item α) : Prop :=
   CleanEvs evs' = true ∧ PhaseOk cfg s' ∧ EndOk cfg s' evs' ∧
   match o with
-  | .msg m => ∃ ms', ms = m :: ms' ∧ specFrom cd cfg s' (dataOf evs') = (ms', .clean) ∧
+  | .msg m => ∃ ms', ms = m :: ms' ∧ specFrom cd cfg s' (accepted cfg evs') = (ms', .clean) ∧
       evs'.length ≤ evs.length
-  | .pending => specFrom cd cfg s' (dataOf evs') = (ms, .clean) ∧ evs'.length < evs.length
+  | .pending => specFrom cd cfg s' (accepted cfg evs') = (ms, .clean) ∧ evs'.length < evs.length
   | .none => ms = [] ∧ evs' = [] ∧ specFrom cd cfg s' [] = ([], .clean)
   | .err _ => False
 
@@ -418,7 +445,7 @@ theorem finish_clean (cd : Codec α) (cfg : DecCfg) (s0 : DecSt) (evs0 : List Bo
 
 theorem pollNext_clean (cd : Codec α) (cfg : DecCfg) (evs : List BodyEv) : ∀ (s : DecSt) (ms : List α),
     PhaseOk cfg s → CleanEvs evs = true → EndOk cfg s evs →
-    specFrom cd cfg s (dataOf evs) = (ms, .clean) →
+    specFrom cd cfg s (accepted cfg evs) = (ms, .clean) →
     CleanPoll cd cfg s evs ms (Dec.pollNext cd cfg s evs).1 (Dec.pollNext cd cfg s evs).2.1
       (Dec.pollNext cd cfg s evs).2.2 := by
   induction evs with
@@ -443,7 +470,7 @@ theorem pollNext_clean (cd : Codec α) (cfg : DecCfg) (evs : List BodyEv) : ∀ 
     | need s' =>
       obtain ⟨hok, htr, hX, hst⟩ := hp
       dsimp only
-      have hx' : specFrom cd cfg s' [] = (ms, .clean) := by rw [← hX]; simpa [dataOf] using hx
+      have hx' : specFrom cd cfg s' [] = (ms, .clean) := by rw [← hX]; simpa [accepted] using hx
       have hbuf : s'.buf.isEmpty = true := by
         rcases hst with ⟨hb, _, _⟩ | hinc
         · simp [hb]
@@ -477,15 +504,15 @@ theorem pollNext_clean (cd : Codec α) (cfg : DecCfg) (evs : List BodyEv) : ∀ 
       | pending =>
         refine ⟨by simpa [CleanEvs] using hc, hok, ?_, ?_, by simp⟩
         · simpa [EndOk, endTr, htr] using he
-        · rw [← hX]; simpa [dataOf] using hx
+        · rw [← hX]; simpa [accepted] using hx
       | data c =>
-        have hok' : PhaseOk cfg ⟨s'.buf ++ c, s'.ph, s'.trailers⟩ := by simpa [PhaseOk] using hok
-        have hx' : specFrom cd cfg ⟨s'.buf ++ c, s'.ph, s'.trailers⟩ (dataOf rest) = (ms, .clean) := by
-          have := specFrom_push cd cfg s' c (dataOf rest)
-          rw [this, ← hX]; simpa [dataOf] using hx
-        have := ih ⟨s'.buf ++ c, s'.ph, s'.trailers⟩ ms hok' (by simpa [CleanEvs] using hc)
+        have hok' : PhaseOk cfg ⟨s'.buf ++ cfg.accept c, s'.ph, s'.trailers⟩ := by simpa [PhaseOk] using hok
+        have hx' : specFrom cd cfg ⟨s'.buf ++ cfg.accept c, s'.ph, s'.trailers⟩ (accepted cfg rest) = (ms, .clean) := by
+          have := specFrom_push cd cfg s' (cfg.accept c) (accepted cfg rest)
+          rw [this, ← hX]; simpa [accepted] using hx
+        have := ih ⟨s'.buf ++ cfg.accept c, s'.ph, s'.trailers⟩ ms hok' (by simpa [CleanEvs] using hc)
           (by simpa [EndOk, endTr, htr] using he) hx'
-        rcases hr : Dec.pollNext cd cfg ⟨s'.buf ++ c, s'.ph, s'.trailers⟩ rest with ⟨s2, evs2, o⟩
+        rcases hr : Dec.pollNext cd cfg ⟨s'.buf ++ cfg.accept c, s'.ph, s'.trailers⟩ rest with ⟨s2, evs2, o⟩
         rw [hr] at this
         simp only [hr]
         obtain ⟨h1, h2, h3, h4⟩ := this
@@ -507,7 +534,7 @@ theorem pollNext_clean (cd : Codec α) (cfg : DecCfg) (evs : List BodyEv) : ∀ 
         have hx' : specFrom cd cfg ⟨s'.buf, s'.ph, mergeTr s'.trailers t⟩ [] = (ms, .clean) := by
           have : specFrom cd cfg ⟨s'.buf, s'.ph, mergeTr s'.trailers t⟩ []
               = specFrom cd cfg s' [] := by simp only [specFrom]
-          rw [this, ← hX]; simpa [dataOf] using hx
+          rw [this, ← hX]; simpa [accepted] using hx
         refine finish_clean cd cfg s _ ms ⟨s'.buf, s'.ph, mergeTr s'.trailers t⟩
           (by simpa [PhaseOk] using hok) ?_ hx' ?_
         · simpa [EndOk, endTr, response_eq, htr] using he
